@@ -243,4 +243,40 @@ Section Estimate.
         let estimated_betas := combine (r_betaNames raw) (r_betaValues raw) in
         Some (raw, mkState (map (change_init_formula estimated_betas) (st_formulas s1)) i)
     end.
+  (* BIOGEME.estimate(run_bootstrap=True): after the final evaluation, `bootstrap_samples` re-estimations on resampled data
+     (one objective per sample), each started at xstar through the same optimize(); their solutions are the rows of
+     bootstrap_results.  optimize() is an ordinary method: whatever attribute of the object it assigns (list
+     [optimize_writes], extracted from the source) is overwritten by every re-estimation -- in particular a convergence
+     status recorded there would be the one of the LAST re-estimation when RawResults reads it. *)
+  Definition set_convergence (r : raw_results) (c : bool) : raw_results :=
+    mkRaw (r_betaNames r) (r_betaValues r) (r_bounds r) (r_initLogLike r) (r_logLike r) (r_g r) (r_H r) (r_bhhh r) c.
+  Definition optimize_effect (optimize_writes : list string) (status : bool) (out : opt_result) : bool :=
+    if existsb (String.eqb "self.convergence") optimize_writes then convergence out else status.
+  Definition estimate_bootstrap (optimize_writes : list string) (optimization_algorithm : string) (params : P)
+      (save_iterations : bool) (saved : option (list (string * R))) (samples : list objective) (s : state)
+      : option (raw_results * list vec * state) :=
+    match estimate optimization_algorithm params save_iterations saved s with
+    | None => None
+    | Some (r, s') =>
+        match routine_of optimization_algorithm with
+        | None => None
+        | Some (routine, fb) =>
+            let outs := map (fun o => ext routine params o (r_betaValues r)
+                                          (if fb then Some (r_bounds r) else None)) samples in
+            Some (set_convergence r (fold_left (optimize_effect optimize_writes) outs (r_convergence r)),
+                  map solution outs, s')
+        end
+    end.
 End Estimate.
+
+(* ------------------------------------------------------------------ the arrays of second derivatives
+   calculate_likelihood_and_derivatives hands arrays to the engine and returns them inside its result; RawResults keeps the
+   arrays it is given (no copy).  A store of matrices: an evaluation writes its matrix either into a freshly allocated array
+   ([fresh] = true: `h = np.empty([n, n])` in the body, extracted from the source) or into one shared array. *)
+Definition store := list mat.
+Definition eval_into (fresh : bool) (st : store) (m : mat) : store * nat :=
+  if fresh then ((st ++ [m])%list, List.length st)
+  else match st with [] => ([m], O) | _ :: r => (m :: r, O) end.
+Definition evals (fresh : bool) (st : store) (ms : list mat) : store :=
+  fold_left (fun st m => fst (eval_into fresh st m)) ms st.
+Definition read (st : store) (a : nat) : mat := nth a st [].
